@@ -3,7 +3,8 @@
    StandardDeviation (running mean and variance) and RSI (Wilder averages of gain and loss). *)
 From Coq Require Import ZArith List String Ascii Bool Lia ZifyBool.
 From Hexital Require Import Base.Prelude Base.Num Model.Manager Model.Candle Model.Readings Model.Analysis
-  Model.Engine Proofs.ListProofs Proofs.EngineProofs Proofs.CausalProofs Proofs.CausalMore Proofs.AnalysisProofs Proofs.DataSlot.
+  Model.Engine Proofs.ListProofs Proofs.EngineProofs Proofs.CausalProofs Proofs.CausalMore Proofs.AnalysisProofs.
+From Hexital Require Import Proofs.DataSlot.
 Import ListNotations.
 Local Open Scope string_scope.
 Local Open Scope list_scope.
@@ -510,21 +511,19 @@ Proof.
 Qed.
 
 Lemma rsi_recomp (a : store) (d : cd) r : fresh NO M d -> G d -> rsiD a d = Ok r ->
-  is_none NO (rnd_ NO I (fst r)) = true -> rsiD a (setkI (slotM d (snd r)) (rnd_ NO I (fst r))) = Ok r.
+  rsiD a (setkI (slotM d (snd r)) (rnd_ NO I (fst r))) = Ok r.
 Proof.
-  intros Hf Hg Er Hn. unfold rsiD in *. rewrite rsiW_deco.
-  destruct (rsiW a d) as [[[g l]|]|]; cbn [bind] in *; [| |discriminate].
-  - exfalso. destruct (rsiV g l) as [v|] eqn:Ev; cbn [bind] in Er; [|discriminate].
-    inversion Er; subst r. cbn [fst] in Hn. destruct (rsiV_num g l v Ev) as [x ->]. discriminate.
-  - rewrite (fresh_reads_none a d Hf Hg) in Er. cbn [bind truthy] in Er. inversion Er; subst r. cbn [fst snd EngineProofs.slot].
-    rewrite (reading_mid NO a []).
-    assert (E : reading_by_candle NO (p (setkI (setkM d VNone) (rnd_ NO I VNone))) nmM = Ok VNone).
-    { destruct HplainM as [Hd Ha]. unfold reading_by_candle. rewrite Hd, Ha.
-      pose proof (G_pres d (Some VNone) (rnd_ NO I VNone) Hg) as Hg'. cbn [EngineProofs.slot] in Hg'. unfold G in Hg'. rewrite Hg'.
-      unfold EngineProofs.setk at 1. unfold with_own_dict. cbn [p]. rewrite Htop. cbn [subs].
-      unfold EngineProofs.setk, with_own_dict, EngineProofs.own, own_dict. cbn [p i_sub dataM sub_ subs i_name].
-      rewrite alist_get_set_same. reflexivity. }
-    rewrite E. cbn [bind truthy]. reflexivity.
+  intros Hf Hg Er. unfold rsiD in *. rewrite rsiW_deco.
+  destruct (rsiW a d) as [[[g l]|]|]; cbn [bind] in *; [exact Er| |discriminate].
+  rewrite (fresh_reads_none a d Hf Hg) in Er. cbn [bind truthy] in Er. inversion Er; subst r. cbn [fst snd EngineProofs.slot].
+  rewrite (reading_mid NO a []).
+  assert (E : reading_by_candle NO (p (setkI (setkM d VNone) (rnd_ NO I VNone))) nmM = Ok VNone).
+  { destruct HplainM as [Hd Ha]. unfold reading_by_candle. rewrite Hd, Ha.
+    pose proof (G_pres d (Some VNone) (rnd_ NO I VNone) Hg) as Hg'. cbn [EngineProofs.slot] in Hg'. unfold G in Hg'. rewrite Hg'.
+    unfold EngineProofs.setk at 1. unfold with_own_dict. cbn [p]. rewrite Htop. cbn [subs].
+    unfold EngineProofs.setk, with_own_dict, EngineProofs.own, own_dict. cbn [p i_sub dataM sub_ subs i_name].
+    rewrite alist_get_set_same. reflexivity. }
+  rewrite E. cbn [bind truthy]. reflexivity.
 Qed.
 End RSI.
 
